@@ -23,9 +23,9 @@ type c01 struct{}
 func init() { register("C01", c01{}) }
 
 func (c01) Plan(tier string) wk.Plan {
-	n := int64(30000)
+	n := int64(200000)
 	if tier == "thorough" {
-		n = 3_000_000
+		n = 10_000_000
 	}
 	return wk.Plan{
 		Level: "exploration", Cases: n, Chunk: 500, Configs: single("seq", 16), CaseBudget: 20,
